@@ -99,4 +99,9 @@ TEXT = {
         "level": "Generated histories of signed transactions through FinalizeBlock/Commit covering gamm, poolmanager (taker fees set by an admin), concentrated liquidity, lockup, incentives, token factory, bank, mint reductions and day/week epochs. Replica lineage: every block's app hash and results must be identical. Import lineage: every transaction result after the import point and the exported module states / queries at the final height must be identical to the exporting node's. Race tier: the same history with concurrent mempool/query-connection load under -race.",
         "note": "Trusted: the harness genesis (2 validators, 8 funded accounts) as a representative chain; FinalizeBlock/Commit driven directly instead of through CometBFT; one proposer. App hashes are not compared across the import boundary (a new chain has new IAVL versions); raw stores are not compared across it either, only what the node reports (exports, queries, results). IBC, wasm contracts, governance and superfluid messages are not in the C19 workload. Crash points are not enumerated (memdb, no restart). Race reports whose accessing code is third-party only (SDK baseapp/params/IAVL) are counted and listed, not judged.",
     },
+    "C20": {
+        "technique": "runtime monitor: authorization matrix over generated histories — every message type acting on an owned object is executed on discarded state forks for the rightful sender (validity) and for every other sender kind; oracle: a wrong sender never succeeds and a rejected message leaves the all-store digest unchanged; admin probes against protected module accounts",
+        "level": "Histories on a real app create and evolve concentrated positions (incl. transferred and superfluid ones), locks in every state (plain, unlocking, superfluid-delegated, undelegating, with reward receivers, holding factory tokens) and factory denoms (admin changed, renounced). 22 message types x sender kinds (other users, previous owners/admins/creators, reward receiver, pool addresses, 11 module accounts, validator owner, intermediary account). Mint-to / burn-from / force-transfer from and to module accounts by the admin, including module accounts that really hold the denom (factory tokens locked in x/lockup).",
+        "note": "Trusted: messages go through ValidateBasic and the message-service router (driver D1), i.e. the signer named in the message is taken as authenticated — signature verification is the SDK ante handler's job and is exercised by C19's signed transactions. A rejected message cannot persist writes in this driver or in a real transaction (both discard the branch), so 'leaves everything unchanged' is checked on the branch itself for a sample of rejections. cosmwasm-pool and authz/ICA indirections are not driven.",
+    },
 }
